@@ -49,8 +49,8 @@ fed("C09", "auth_types_for_event is compared with rsel as sets on every created 
 fed("C20", "On history-reached power-levels events (fields absent, string levels before v10, users around thresholds) each helper (ban/kick/unban/invite a given user, send message/state type, room notification, effective level) is compared with the real auth_check verdict on the minimal corresponding event from a joined actor (and the real push condition / state-res level for the last two); room versions 3-11.")
 
 chk("C17", "crashsim",
-    "Seeded deterministic simulation of long-lived worker processes fed fault-damaged wire data (byte- and structure-level mutations of valid seeds, 200-600 deliveries per worker in quick, 500-2000 in thorough) at 60+ entry points that consume remote-controlled data; observables are exactly those the property names: panic payload, abort/signal/exit (incl. stack exhaustion on an 8 MiB stack), hang (20 s watchdog, confirmed twice in isolation), and canary drift (a fixed battery of well-formed calls must keep its recorded outputs after every rejected input). No functional oracle, hence no reference model to get wrong. Sampling, not proof.",
-    "Trusted: the supervisor/worker harness; bounds: inputs <= ~70 KB, JSON nesting <= 128, HTML nesting <= 1000, 8 MiB stack, 20 s watchdog; state-res entry points reject cyclic explicit event-id graphs (not producible by a peer from room v3 on).",
+    "Seeded deterministic simulation of long-lived worker processes fed fault-damaged wire data (byte- and structure-level mutations of valid seeds, 200-600 deliveries per worker in quick, 500-2000 in thorough) at 60+ entry points that consume remote-controlled data; observables are exactly those the property names: panic payload, abort/signal/exit (incl. stack exhaustion on an 8 MiB stack), hang (60 s watchdog, confirmed twice in isolation), and canary drift (a fixed battery of well-formed calls must keep its recorded outputs after every rejected input). No functional oracle, hence no reference model to get wrong. Sampling, not proof.",
+    "Trusted: the supervisor/worker harness; bounds: inputs <= ~70 KB, JSON nesting <= 128, HTML nesting <= 1000, 8 MiB stack, 60 s watchdog; state-res entry points reject cyclic explicit event-id graphs (not producible by a peer from room v3 on).",
     "deterministic simulation with fault injection on wire data (seeded mutation sequences against long-lived processes; crash/abort/hang/poisoning detection; tape minimisation and replay)",
     "DESIGN.md §6, §7 C17")
 
